@@ -20,10 +20,10 @@ TRACE_CFG = "HttpFramingTrace.cfg"
 
 # named known deviations the trace spec can emit (clause names; see HttpFraming.tla / HttpFramingTrace.tla)
 DEV_CLAUSES = {
-    "TargetCTLAccepted", "AbsTargetAuthorityAccepted",
+    "TargetCTLAccepted", "AbsTargetEmptyHostAccepted",
     "TEonHTTP10Accepted", "HeadRequestBodySkipped", "ChunkExtCTLAccepted",
-    "UrlValueErrorEscapes", "LimitByCallPosition", "LimitCutBeforeLF", "DataAfterCloseSegDependent",
-    "BodyError5xx", "BadAuthorityKillsHandler", "StalePauseStall", "LaxChunkCRSegDependent",
+    "LimitByCallPosition", "LimitCutBeforeLF", "DataAfterCloseSegDependent",
+    "BodyError5xx", "StalePauseStall", "LaxChunkCRSegDependent",
 }
 
 
